@@ -14,6 +14,7 @@ import (
 	"time"
 
 	"github.com/anz-bank/sysl/pkg/cmdutils"
+	mermaidseq "github.com/anz-bank/sysl/pkg/mermaid/sequencediagram"
 	"github.com/anz-bank/sysl/pkg/sequencediagram"
 	"github.com/anz-bank/sysl/pkg/sysl"
 	"github.com/sirupsen/logrus"
@@ -34,6 +35,94 @@ type sdScenario struct {
 	Raw    bool          `json:"raw"` // include raw diagram lines
 	// Opts: draw each start also with options: up to two other endpoints as blackboxes and grouping by the attribute "team"
 	Opts bool `json:"opts"`
+	// Mermaid: also draw each plain start with the Mermaid sequence generator (beyond the listed properties)
+	Mermaid bool `json:"mermaid"`
+}
+
+var (
+	reMmArrow = regexp.MustCompile(`^(\S+) (-->>|->>) (\S+): (.*)$`)
+	reMmOpen  = regexp.MustCompile(`^(alt|opt|loop|par|critical|rect)( .*)?$`)
+	reMmElse  = regexp.MustCompile(`^(else|and|option)( .*)?$`)
+)
+
+// sdMermaid draws (app, ep) with the Mermaid generator and reports the solid arrows with the application names mapped
+// back from their Mermaid spelling, the numbers of block openers and of `end` lines, and the lines that are no
+// Mermaid sequence-diagram statement.
+func sdMermaid(m *sysl.Module, t int, app, ep string, raw bool) tr.Ev {
+	ev := tr.Ev{"t": t, "e": "mermaid", "ok": false, "arrows": [][]string{}, "opens": 0, "ends": 0, "unknown": []string{}, "msg": ""}
+	type res struct {
+		text string
+		err  error
+		pan  string
+	}
+	ch := make(chan res, 1)
+	go func() {
+		var r res
+		defer func() {
+			if p := recover(); p != nil {
+				r.pan = fmt.Sprint(p)
+			}
+			ch <- r
+		}()
+		r.text, r.err = mermaidseq.GenerateSequenceDiagram(m, app, ep)
+	}()
+	var r res
+	select {
+	case r = <-ch:
+	case <-time.After(20 * time.Second):
+		r.pan = "timeout"
+	}
+	if r.pan != "" || r.err != nil {
+		ev["msg"] = fmt.Sprint(r.pan, r.err)
+		return ev
+	}
+	back := map[string]string{"...": "["}
+	amb := false
+	for an := range m.GetApps() {
+		c := strings.ReplaceAll(strings.ReplaceAll(an, " :: ", "_"), "-", "_")
+		if o, has := back[c]; has && o != an {
+			amb = true
+		}
+		back[c] = an
+	}
+	if amb {
+		ev["msg"] = "application names collide in their Mermaid spelling"
+		return ev
+	}
+	arrows, unknown := [][]string{}, []string{}
+	opens, ends := 0, 0
+	for _, raw := range strings.Split(r.text, "\n") {
+		l := strings.TrimSpace(raw)
+		switch {
+		case l == "" || strings.HasPrefix(l, "%%") || l == "sequenceDiagram":
+		case l == "end":
+			ends++
+		case reMmArrow.MatchString(l):
+			g := reMmArrow.FindStringSubmatch(l)
+			if g[2] == "->>" {
+				f, okf := back[g[1]]
+				to, okt := back[g[3]]
+				if !okf || !okt {
+					unknown = append(unknown, l)
+					continue
+				}
+				arrows = append(arrows, []string{f, to, g[4]})
+			}
+		case reMmOpen.MatchString(l):
+			opens++
+		case reMmElse.MatchString(l):
+		default:
+			unknown = append(unknown, l)
+		}
+	}
+	if len(unknown) > 5 {
+		unknown = unknown[:5]
+	}
+	ev["ok"], ev["arrows"], ev["opens"], ev["ends"], ev["unknown"] = true, arrows, opens, ends, unknown
+	if raw {
+		ev["raw"] = r.text
+	}
+	return ev
 }
 
 var (
@@ -304,6 +393,9 @@ func runSeqDiag(in, out string, _ []string) error {
 				}
 				evs = append(evs, sdParse(id, s)...)
 				evs = append(evs, tr.Ev{"t": id, "e": "end"})
+			}
+			if sc.Mermaid && len(v.cut) == 0 && v.group == "" {
+				evs = append(evs, sdMermaid(cr.m, id, parts[0], parts[1], sc.Raw))
 			}
 			w.EmitAll(evs)
 		}
